@@ -1,10 +1,7 @@
 /-
-Agreement theorems for the methods of `VersionConstraint` translated from the Python source on every run:
-`is_star`, `invert` (with its local `INVERTED_COMPARATORS` dict) and `validate`
-(`Univers/Gen/PyConIsStar.lean`, `PyConInvert.lean`, `PyConValidate.lean`) are the model's `Con.isStar`,
-`Con.invert` and `validate` of `Univers/Vers/Model.lean` that the theorems of C09 and C07 are about.
+Agreement theorem for `VersionConstraint.validate` as translated from the Python source on every run
+(`Univers/Gen/PyConValidate.lean`): it is the model's `validate` that the theorems of C07 are about.
 -/
-import Univers.Gen.PyConInvert
 import Univers.Gen.PyConValidate
 import Univers.Vers.GenValidateThm
 
@@ -12,19 +9,6 @@ namespace Univers.Gen.LayerB
 open Univers Univers.PyRt
 
 variable {V : Type} (o : VOps V) (perm : List (Con V) → List (Con V))
-
-/-- **`VersionConstraint.is_star` as translated is the model's `Con.isStar`.** -/
-theorem con_is_star_eq (c : Con V) : con_is_star o perm c = .ok c.isStar := by
-  cases c with
-  | star => rfl
-  | mk k v => cases k <;> rfl
-
-/-- **`VersionConstraint.invert` as translated is the model's `Con.invert`** (`None` for the star; the
-`INVERTED_COMPARATORS` lookup never raises `KeyError` and the constructor never refuses). -/
-theorem con_invert_eq (c : Con V) : con_invert o perm c = .ok c.invert := by
-  cases c with
-  | star => rfl
-  | mk k v => cases k <;> rfl
 
 theorem cval_tab1 (c : Con V) : con_validate_tab1 (comparator c) = c.isStar := by
   cases c with
